@@ -376,7 +376,7 @@ class GenericSpectralLinear(Problem):
         elif self.solver_type.lower() == 'direct':
             _sol_hat = sp.linalg.spsolve(A, rhs_hat)
         elif 'gmres' in self.solver_type.lower():
-            _sol_hat, _ = sp.linalg.gmres(
+            _sol_hat, info = sp.linalg.gmres(
                 A,
                 rhs_hat,
                 x0=u0_hat,
